@@ -137,6 +137,17 @@ CHECKS = {
              '(zlib is C code; a symbolic payload would be realised to one value) and is not claimed. Bounded model checking.',
         note='Trusted: CrossHair string/regex model, z3, the two reference splitters. Outside: longer arguments, NUL, gzip clause.',
         ref='C14'),
+    'C16': dict(
+        technique='bounded symbolic execution (CrossHair/z3) with solver-drawn characters and structures: ParsedException text round-trip over every '
+                  'generated structure; ExceptionInfo/TracebackInfo vs the traceback module on solver-chosen live call chains',
+        text='(a) For each of five fields (path, function name, source line, exception type, message) a free text of 1-2 characters - first drawn '
+             'from a 106-character alphabet (printable ASCII, controls, non-ASCII representatives), second from 13 format-relevant characters - is '
+             'embedded in EVERY structure of 0..2 frames (source line on/off per frame, function-name kinds, four message classes incl. ": " and '
+             'multi-line): from_string recovers every field and to_string reproduces the text. (b) Every call chain of depth 1..3 over plain / '
+             'lambda / source-less frames, 6 exception types x 4 message classes: frames, to_dict and get_formatted equal traceback.extract_tb / '
+             'format_exception (marker lines aside). Exhaustive within these bounds; a fully symbolic character did not exhaust (DESIGN).',
+        note='Trusted: CrossHair/z3 exhaustion, traceback module as oracle. Outside: SyntaxError layout, chained causes, notes, fields with line-break characters, longer free texts.',
+        ref='C16'),
     'C17': dict(
         technique='bounded symbolic execution (CrossHair/z3) of the real OneToOne/ManyToMany/FrozenDict methods: '
                   'one arbitrary operation from an arbitrary reachable pre-state, equality pattern of keys/values decided by the solver',
